@@ -89,11 +89,16 @@ func runC18(c *core.Ctx) {
 	k.Rows, k.HF = 1, false // payloads may contain line breaks; keep the record shape simple
 	n := r.Range(2, 8)
 	bulk := r.Chance(1, 6)
+	asciiFirst := false
 	if bulk {
 		// inputs several read buffers long, dense in bytes whose UTF-8 form is two or three bytes long: decoded sequences straddle
 		// whatever buffer boundaries the decoder and its consumers have
 		n = r.Range(150, 500)
 		c.Inc("bulk_inputs")
+		if asciiFirst = r.Chance(1, 3); asciiFirst {
+			n = r.Range(300, 600)
+			c.Inc("bulk_inputs_with_ascii_only_beginning")
+		}
 	}
 	var recs []gen.Rec
 	var payloads [][]byte
@@ -106,6 +111,9 @@ func runC18(c *core.Ctx) {
 			case i == 0 && j == 0:
 				// the deterministic sweep: two byte values per case
 				p = []byte{byte(slot * 2 % 256), 'a', byte((slot*2 + 1) % 256)}
+			case bulk && asciiFirst && i < n*7/10:
+				// several buffers' worth of pure ASCII before the first byte that needs decoding
+				p = []byte("a" + strings.Repeat("x", r.Range(0, 5)))
 			case bulk:
 				ln := r.Range(1, 6)
 				for x := 0; x < ln; x++ {
